@@ -91,9 +91,22 @@ def lowlink(facts):
             if not t["args"] or ("field", "low") not in leaves(b.expr(t["args"][0], 8)) or t["dest"]["p"]:
                 continue
             d = t["dest"]["l"]
+            # the slot reference may be kept in a named local (`let slot = &mut tracker.low[u];`) or reborrowed
+            slot_locals = {d}
+            grew = True
+            while grew:
+                grew = False
+                for i2, j2, st in b.stmts():
+                    rv = st["rv"]
+                    if st["lhs"]["p"] or st["lhs"]["l"] in slot_locals:
+                        continue
+                    if (rv["k"] == "use" and op_local(rv["o"][0]) in slot_locals and not op_place(rv["o"][0])["p"]) or \
+                            (rv["k"] == "ref" and rv["pl"]["l"] in slot_locals and rv["pl"]["p"] == ["*"]):
+                        slot_locals.add(st["lhs"]["l"])
+                        grew = True
             vals = []
             for i2, j2, st in b.stmts():
-                if st["lhs"]["l"] == d and st["lhs"]["p"] == ["*"] and st["rv"]["k"] == "use":
+                if st["lhs"]["l"] in slot_locals and st["lhs"]["p"] == ["*"] and st["rv"]["k"] == "use":
                     vals.append((i2, st, b.expr(st["rv"]["o"][0], 12)))
             for (i2, st, e) in vals:
                 arrs = sorted({x[1] for x in leaves(e) if x[0] == "field" and x[1] in ("low", "disc")})
@@ -139,6 +152,25 @@ def kshortest_unfiltered(facts):
             o.check(b, "relax#%d" % n, t["line"], not bad, "relaxation is unconditional on the edge's endpoints",
                     "the relaxation of an out-edge is filtered by a test on its endpoints / a visited set (line %s): walks that revisit a vertex "
                     "(e.g. through a self-loop) are lost and the k-th cost comes out too large or missing" % bad)
+        # the same loop written as `graph.edges(node).for_each(|edge| heap.push(..))`: the closure body is the loop body
+        for cb in facts.with_closures(b):
+            if cb is b:
+                continue
+            pushes = [i for i, t in cb.calls() if last_seg(t["f"]["path"]) == "push" and "BinaryHeap" in norm_path(t["f"]["path"])]
+            if not pushes:
+                continue
+            users = [(i, t) for i, t in b.calls() if last_seg(t["f"]["path"]) in ("for_each", "try_for_each", "fold") and
+                     any(isinstance(s_, tuple) and s_[0] == "agg" and len(s_) > 1 and s_[1] == cb.path for a_ in t["args"] for s_ in walk_expr(b.expr(a_, 6)))]
+            if not users:
+                continue
+            n += 1
+            rets = {i for i, bl in enumerate(cb.blocks) if bl["term"]["k"] == "return" and not bl["cleanup"]}
+            skips = bool(reach(cb, 0, avoid=set(pushes)) & rets)
+            filt = [last_seg(s_[1]["path"]) for (ui, ut) in users for s_ in walk_expr(b.expr(ut["args"][0], 10))
+                    if isinstance(s_, tuple) and s_[0] == "call" and last_seg(s_[1]["path"]) in ("filter", "filter_map", "skip", "skip_while", "take", "take_while", "step_by")]
+            o.check(cb, "relax#%d" % n, cb.line, not skips and not filt, "the closure handed to for_each pushes on every path and the edge iterator is unfiltered",
+                    "the relaxation of an out-edge is %s: walks that revisit a vertex are lost and the k-th cost comes out too large or missing" %
+                    ("filtered by %s" % filt[:2] if filt else "skipped on some path through the closure"))
         o.check(b, "relaxations", b.line, n >= 1, "%d relaxation push site(s)" % n, "relaxation push not found")
         # every iteration of the edge loop reaches the push (no path from the loop body back to the loop head avoids it)
         succ = b.cfg()[0]
